@@ -2,46 +2,66 @@ import FcpptModel.Model.C10
 /-!
 # C10 — specification: a bitfield denotes a set of enumerators
 
-`Expr` is the language of all ways a bitfield can be computed through the public interface
-(initializer list, `init`, `set`, `| & ^ ~` and their assigning forms).  `den` is the set it
-denotes, independent of words, word size and padding; `eval` runs the model.
+`Expr w` is the language of all ways a bitfield can be computed through the public interface
+(initializer list, `init`, the raw-array constructor, `set` / `operator[] =` / `|= index`,
+writes through the mutable `array()` accessor, `| & ^ ~` and their assigning forms — the
+binary operators are *defined* through the assigning ones in `operators.hpp`).  `den` is the
+set it denotes, independent of padding and of how it was computed; `eval` runs the model.
+
+The raw-array constructor and `array()` writes are the only operations that can put a bit
+into the padding of the last word; `Valid` asks such arrays to be padding-clean (the
+theorems about `==`/`hash` need it — see `dirty_padding_breaks_eq` in the proofs — while
+`get`, `~` and `init` do not: `not_any_array`).
 -/
 namespace Fcppt.C10
 
-inductive Expr where
-  | lit (l : List Nat)                 -- bitfield{e1, e2, ...} (initializer list; `null` is `lit []`)
+inductive Expr (w : Nat) where
+  | lit (l : List Nat)                 -- bitfield{e1, e2, ...} (initializer list, duplicates allowed; `null` is `lit []`)
   | init (tbl : List Bool)             -- bitfield::init with f e = tbl[e]
-  | set (a : Expr) (i : Nat) (v : Bool)
-  | or (a b : Expr) | and (a b : Expr) | xor (a b : Expr)
-  | not (a : Expr)
+  | raw (ws : Words w)                 -- object(array_type const &)
+  | set (a : Expr w) (i : Nat) (v : Bool)   -- set, operator[] =, (v = true:) operator|= index, operator| index
+  | poke (a : Expr w) (k : Nat) (x : BitVec w)  -- a.array()[k] = x
+  | or (a b : Expr w) | and (a b : Expr w) | xor (a b : Expr w)
+  | not (a : Expr w)
   deriving Repr, Inhabited
 
-/-- enumerators mentioned by the expression are enumerators of the enum -/
-def Expr.Valid (n : Nat) : Expr → Prop
+/-- no bit at or above the enum size is set (as far as the array reaches) -/
+def PadClean {w : Nat} (n : Nat) (a : Words w) : Prop := ∀ j, n ≤ j → get a j = false
+
+/-- enumerators mentioned by the expression are enumerators of the enum; raw arrays have the
+right number of words and clean padding -/
+def Expr.Valid {w : Nat} (n : Nat) : Expr w → Prop
   | .lit l => ∀ i ∈ l, i < n
   | .init _ => True
+  | .raw ws => ws.length = nwords n w ∧ PadClean n ws
   | .set a i _ => a.Valid n ∧ i < n
+  | .poke a k x => a.Valid n ∧ k < nwords n w ∧ ∀ j, n ≤ j → j / w = k → x.getLsbD (j % w) = false
   | .or a b | .and a b | .xor a b => a.Valid n ∧ b.Valid n
   | .not a => a.Valid n
 
-/-- set semantics: membership of enumerator `i` (complement is relative to the enum: only asked for `i < n`) -/
-def Expr.den : Expr → Nat → Bool
+/-- set semantics: membership of enumerator `i` (complement is relative to the enum: only asked for `i < n`).
+A raw word array denotes by bit addressing: enumerator `i` is bit `i % w` of word `i / w`. -/
+def Expr.den {w : Nat} : Expr w → Nat → Bool
   | .lit l, i => l.contains i
   | .init t, i => t.getD i false
+  | .raw ws, i => match ws[i / w]? with | some x => x.getLsbD (i % w) | none => false
   | .set a j v, i => if i = j then v else a.den i
+  | .poke a k x, i => if i / w = k then x.getLsbD (i % w) else a.den i
   | .or a b, i => a.den i || b.den i
   | .and a b, i => a.den i && b.den i
   | .xor a b, i => a.den i ^^ b.den i
   | .not a, i => !a.den i
 
 /-- run the model -/
-def Expr.eval (n w : Nat) : Expr → Words w
+def Expr.eval {w : Nat} (n : Nat) : Expr w → Words w
   | .lit l => ofList n w l
   | .init t => C10.init n w (fun i => t.getD i false)
-  | .set a i v => C10.set (a.eval n w) i v
-  | .or a b => C10.or (a.eval n w) (b.eval n w)
-  | .and a b => C10.and (a.eval n w) (b.eval n w)
-  | .xor a b => C10.xor (a.eval n w) (b.eval n w)
-  | .not a => C10.not n (a.eval n w)
+  | .raw ws => ofArray ws
+  | .set a i v => C10.set (a.eval n) i v
+  | .poke a k x => C10.poke (a.eval n) k x
+  | .or a b => C10.or (a.eval n) (b.eval n)
+  | .and a b => C10.and (a.eval n) (b.eval n)
+  | .xor a b => C10.xor (a.eval n) (b.eval n)
+  | .not a => C10.not n (a.eval n)
 
 end Fcppt.C10
